@@ -23,8 +23,8 @@ Lemma gen_ins_inner_step_eq pa pb j tmp : 0 <= j < B62 ->
   res_eq (gen_ins_inner_step cmp pa pb j tmp) (ref_ins_inner_step kf pa pb j tmp).
 Proof. intros. unfold gen_ins_inner_step, ref_ins_inner_step. slice_decide Hc. Qed.
 
-Lemma gen_ins_inner_post_eq pa pb j tmp i : 0 <= i < B62 ->
-  res_eq (gen_ins_inner_post cmp pa pb j tmp i) (ref_ins_inner_post pa pb j tmp i).
+Lemma gen_ins_inner_post_eq pa pb j i tmp : 0 <= i < B62 ->
+  res_eq (gen_ins_inner_post cmp pa pb j i tmp) (ref_ins_inner_post pa pb j i tmp).
 Proof. intros. unfold gen_ins_inner_post, ref_ins_inner_post. slice_decide Hc. Qed.
 
 Lemma gen_ins_outer_post_eq pa pb i : 
@@ -47,8 +47,8 @@ Lemma gen_shell_inner_step_eq pa pb j inc tmp : 0 <= j < B62 -> 0 <= inc < B62 -
   res_eq (gen_shell_inner_step cmp pa pb j inc tmp) (ref_shell_inner_step kf pa pb j inc tmp).
 Proof. intros. unfold gen_shell_inner_step, ref_shell_inner_step. slice_decide Hc. Qed.
 
-Lemma gen_shell_inner_post_eq pa pb j tmp i : 0 <= i < B62 ->
-  res_eq (gen_shell_inner_post cmp pa pb j tmp i) (ref_shell_inner_post pa pb j tmp i).
+Lemma gen_shell_inner_post_eq pa pb j i tmp : 0 <= i < B62 ->
+  res_eq (gen_shell_inner_post cmp pa pb j i tmp) (ref_shell_inner_post pa pb j i tmp).
 Proof. intros. unfold gen_shell_inner_post, ref_shell_inner_post. slice_decide Hc. Qed.
 
 Lemma gen_shell_mid_post_eq pa pb i inc : 0 <= inc < B62 ->
@@ -84,6 +84,7 @@ Lemma gen_mrec_pre_eq pa pb left right a1 b1 a2 b2 : 0 <= left < B62 -> 0 <= rig
 Proof. intros. unfold gen_mrec_pre, ref_mrec_pre. slice_decide Hc. Qed.
 
 Lemma gen_mrec_merge_step_eq pa pb l r idx center right : 0 <= l < B62 -> 0 <= r < B62 -> 0 <= idx < B62 -> 0 <= center < B62 -> 0 <= right < B62 ->
+  l <= center -> r <= right -> idx <= right ->
   res_eq (gen_mrec_merge_step cmp pa pb l r idx center right) (ref_mrec_merge_step kf pa pb l r idx center right).
 Proof. intros. unfold gen_mrec_merge_step, ref_mrec_merge_step. slice_decide Hc. Qed.
 
@@ -103,8 +104,8 @@ Lemma gen_qrec_up_step_eq pa pb i pivot : 0 <= i < B62 ->
   res_eq (gen_qrec_up_step cmp pa pb i pivot) (ref_qrec_up_step kf pa pb i pivot).
 Proof. intros. unfold gen_qrec_up_step, ref_qrec_up_step, aswap. slice_decide Hc. Qed.
 
-Lemma gen_qrec_up_post_eq pa pb i j pivot : 
-  res_eq (gen_qrec_up_post cmp pa pb i j pivot) (ref_qrec_up_post pa pb i j pivot).
+Lemma gen_qrec_up_post_eq pa pb i pivot j : 
+  res_eq (gen_qrec_up_post cmp pa pb i pivot j) (ref_qrec_up_post pa pb i pivot j).
 Proof. intros. unfold gen_qrec_up_post, ref_qrec_up_post, aswap. slice_decide Hc. Qed.
 
 Lemma gen_qrec_down_step_eq pa pb j pivot : 0 < j < B62 ->
